@@ -987,6 +987,16 @@ class View(object):
       return s.value
     if isinstance(s, ast.AnnAssign) and isinstance(s.target, ast.Name) and s.target.id == name:
       return s.value
+    # a, b = x, y  binds each name to its own expression
+    if isinstance(s, ast.Assign) and len(s.targets) == 1 and \
+        isinstance(s.targets[0], (ast.Tuple, ast.List)) and \
+        isinstance(s.value, (ast.Tuple, ast.List)) and \
+        len(s.targets[0].elts) == len(s.value.elts) and \
+        not any(isinstance(e, ast.Starred) for e in s.targets[0].elts + s.value.elts):
+      hits = [v for t, v in zip(s.targets[0].elts, s.value.elts)
+              if isinstance(t, ast.Name) and t.id == name]
+      if len(hits) == 1:
+        return hits[0]
     return None
 
   def _nonplain_defs(self, name):
@@ -1572,6 +1582,98 @@ def canon_atom(cond_text, pol=True):
       l, r = r, l
     return ("%s %s %s" % (l, _OPNAME.get(op, op.__name__), r), pol)
   return (text(e), pol)
+
+
+def in_consts(atom_text):
+  """('x', ('a', 'b')) for the canonical atom text "x in ('a', 'b')"; None otherwise."""
+  try:
+    e = ast.parse(atom_text, mode="eval").body
+  except SyntaxError:
+    return None
+  if isinstance(e, ast.Compare) and len(e.ops) == 1 and isinstance(e.ops[0], ast.In) and \
+      isinstance(e.comparators[0], (ast.Tuple, ast.List, ast.Set)) and \
+      all(isinstance(x, ast.Constant) for x in e.comparators[0].elts):
+    return text(e.left), tuple(x.value for x in e.comparators[0].elts)
+  return None
+
+
+def flag_path(cfg, start, targets, stops, after=True):
+  """A path from `start` (from just after it when after=True) to one of `stops` that avoids
+  `targets`, where an `if` testing a boolean flag -- a local that was assigned the constant True
+  or False on the way and not reassigned since -- only takes the branch that value selects. None
+  when every path passes a target. A plain path search would report the impossible path
+  `found = True ... if not found: raise`."""
+  from collections import deque
+
+  def value(test, known):
+    if isinstance(test, ast.Name):
+      return known.get(test.id)
+    if isinstance(test, ast.UnaryOp) and isinstance(test.op, ast.Not):
+      x = value(test.operand, known)
+      return None if x is None else (not x)
+    return None
+
+  def step(nid, known):
+    node = cfg.nodes[nid]
+    s = node.stmt
+    k2 = known
+    if node.kind == "stmt" and isinstance(s, ast.Assign) and len(s.targets) == 1 and \
+        isinstance(s.targets[0], ast.Name):
+      nm = s.targets[0].id
+      k2 = dict(known)
+      if isinstance(s.value, ast.Constant) and isinstance(s.value.value, bool):
+        k2[nm] = s.value.value
+      else:
+        k2.pop(nm, None)
+    elif node.kind in ("stmt", "for", "with") and s is not None:
+      bound = stmt_defs_plain(s) if node.kind == "stmt" else \
+          {y.id for y in ast.walk(s.target) if isinstance(y, ast.Name)} if node.kind == "for" \
+          else set()
+      if bound & set(known):
+        k2 = {k: v for k, v in known.items() if k not in bound}
+    succs = set(cfg.normal_succ(nid))
+    if node.kind == "if" and nid in cfg.if_true:
+      t_succ = set(cfg.if_true[nid]) & succs
+      f_succ = succs - set(cfg.if_true[nid])
+      verdict = value(s.test, k2)
+      if verdict is True:
+        succs = t_succ
+      elif verdict is False:
+        succs = f_succ
+    return succs, k2
+
+  def freeze(k):
+    return tuple(sorted(k.items()))
+
+  init = (start, freeze({}))
+  prev = {init: None}
+  dq = deque()
+  if after:
+    dq.append((init, {}))
+  else:
+    if start in stops:
+      return [start]
+    dq.append((init, {}))
+  while dq:
+    cur, known = dq.popleft()
+    nid = cur[0]
+    succs, k2 = step(nid, known)
+    for t in succs:
+      if t in targets:
+        continue
+      nxt = (t, freeze(k2))
+      if nxt in prev:
+        continue
+      prev[nxt] = cur
+      if t in stops:
+        path = [t]
+        p = cur
+        while p is not None:
+          path.append(p[0])
+          p = prev[p]
+        return list(reversed(path))
+      dq.append((nxt, k2))
+  return None
 
 
 def eq_const(atom_text):
